@@ -42,6 +42,7 @@ let oracle_fails = ref 0
 let known = ref 0
 let nontrivial = ref 0
 let samples_left = ref 5
+let fidelity = ref 0
 let dedupe = ref true
 let seen : (int, unit) H.t = H.create 100000
 let max_report = 50
@@ -324,6 +325,56 @@ let handle_lex fields =
     end
   | _ -> raise (Parse "bad lex line")
 
+
+(* ---------- family: pk (token-level parser) ---------- *)
+let nat_of_int (i : int) : Datatypes.nat =
+  let rec go i acc = if i = 0 then acc else go (i - 1) (Datatypes.S acc) in go i Datatypes.O
+let rec int_of_nat (n : Datatypes.nat) : int =
+  match n with Datatypes.O -> 0 | Datatypes.S m -> 1 + int_of_nat m
+let int_of_nat n = let rec go n acc = match n with Datatypes.O -> acc | Datatypes.S m -> go m (acc + 1) in go n 0
+
+let site_str (w : Parser.site) : string =
+  match w with
+  | Parser.SBumpAssert -> "bump-assert" | Parser.SNthAssert -> "nth-assert"
+  | Parser.SGrammarAssert n -> "grammar-assert-" ^ string_of_n n
+  | Parser.SMarker n -> "marker-" ^ string_of_n n | Parser.SDropBomb -> "dropbomb"
+  | Parser.SProcess -> "process-unreachable" | Parser.SUnreachable n -> "unreachable-" ^ string_of_n n
+let steps_str (l : Parser.step list) : string =
+  String.concat " " (L.map (function
+      | Parser.StEnter k -> "E" ^ string_of_n k
+      | Parser.StExit -> "X"
+      | Parser.StToken (k, n) -> "T" ^ string_of_n k ^ ":" ^ string_of_int (int_of_nat n)
+      | Parser.StError -> "!") l)
+let strip_errors (s : string) : string =
+  String.concat " " (L.filter (fun t -> t <> "!") (words s))
+let parse_toks (s : string) : (coq_N * bool) list =
+  L.map (fun t -> match split_on '.' t with
+      | [k; j] -> (n_of_int (int_of_string k), j = "1")
+      | _ -> raise (Parse "token")) (words s)
+let model_pk inp : string =
+  match Grammar.run_parser inp with
+  | Grammar.Steps l -> steps_str l
+  | Grammar.Panicked w -> "PANIC " ^ site_str w
+  | Grammar.Hang -> "HANG"
+let is_prefix p s = String.length s >= String.length p && String.sub s 0 (String.length p) = p
+let handle_pk fields =
+  match fields with
+  | [toks; impl; orc] ->
+    let inp = parse_toks toks in
+    count_case toks (L.length inp >= 2); sample "pk" toks impl;
+    let m = model_pk inp in
+    (* outcome class and skeleton (enter/exit/token) decide; error placement is fidelity *)
+    let cls s = if is_prefix "PANIC" s then "PANIC" else if s = "HANG" then "HANG" else strip_errors s in
+    if cls m <> cls impl then mismatch "pk" toks impl m
+    else if m <> impl && not (is_prefix "PANIC" m) then begin
+      (* same skeleton, different error placement: has-any-error must still agree (C04/C12) *)
+      let has_err s = L.mem "!" (words s) in
+      if has_err m <> has_err impl then mismatch "pk" toks impl m
+      else (incr fidelity; if !fidelity <= 5 then report "FIDELITY" ["pk"; toks; "impl=" ^ impl; "model=" ^ m])
+    end;
+    if orc <> "ok" then oracle_fail "pk" toks orc
+  | _ -> raise (Parse "bad pk line")
+
 (* ---------- main loop ---------- *)
 let () =
   Array.iter (fun a -> if a = "--nodedupe" then dedupe := false) Sys.argv;
@@ -339,6 +390,7 @@ let () =
              | "ty1" | "ty2" | "ty3" -> handle_types fam fields
              | "symtab" -> handle_symtab fields
              | "lex" -> handle_lex fields
+             | "pk" -> handle_pk fields
              | _ -> raise (Parse ("unknown family " ^ fam)))
           with Parse m -> report "DRIVER-ERROR" [m; line]; incr mismatches)
        | [] -> ()
@@ -347,4 +399,4 @@ let () =
   types_finish ();
   report "SUMMARY" [ "cases=" ^ string_of_int !cases; "nontrivial=" ^ string_of_int !nontrivial;
                      "mismatch=" ^ string_of_int !mismatches; "oracle=" ^ string_of_int !oracle_fails;
-                     "known=" ^ string_of_int !known ]
+                     "known=" ^ string_of_int !known; "fidelity=" ^ string_of_int !fidelity ]
